@@ -74,6 +74,7 @@ impl World {
                 bb: &bb,
                 allow_garbage: a.plan.abuser || a.plan.garbage,
                 conformant: a.plan.conformant,
+                abuser: a.plan.abuser,
             };
             let msg = r.resolve(op);
             if op.k == OpKind::Sync && a.barrier_pc == Some(a.pc - 1) {
